@@ -23,7 +23,7 @@ pub fn check_all(h: &Hist, out: &Outcome, props: &[&str]) -> OracleOut {
         let mut want: Vec<&str> = props.to_vec();
         if props.contains(&"C09") {
             // C09 re-labels value/TTL/presence violations on conditionally written keys
-            want.extend(["C03", "C04"]);
+            want.extend(["C03", "C04", "C05"]);
         }
         let t = oracle_ttl::check_ttl(h, &want);
         o.violations.extend(t.violations.into_iter().filter(|v| props.contains(&v.prop.as_str())));
